@@ -51,6 +51,17 @@ def r08a(ctx):
                'theta = [C @] (|p|*(1-ka)+ka)' if mi.blend_ok else
                f'every path from the parameter to theta must pass through |p|*(1-ka)+ka: '
                f'{mi.blend_msg}', where(mi.theta_fn))
+        if mi.blend_ok:
+            ex1 = mi.exact_at_one == ('const', 1)
+            ex0 = mi.exact_at_zero == mi.abs_term
+            ctx.ob('R08a', f'{ci.name}.theta keep-alive exact for huge |p|', ex1 and ex0,
+                   'at ka = 1 the blend is |p|*0 + 1 = 1 and at ka = 0 it is |p|, exactly, for '
+                   'every finite |p|' if ex1 and ex0 else
+                   f'the blend equals |p|*(1-ka)+ka only in real arithmetic: at ka = 1 it '
+                   f'evaluates {short(mi.exact_at_one, 80)}, which relies on a cancellation that '
+                   f'float32 does not perform for |p| >= 2**24 (the 1 is absorbed): a huge mask '
+                   f'value on the keep-alive element makes it 0 and the layer can be pruned away',
+                   where(mi.theta_fn))
         has_one = mi.ka is not None and (mi.ka.at[S] is True or mi.ka.at[E] is True)
         ctx.ob('R08a', f'{ci.name} keep-alive constant has a one', has_one,
                f'keep-alive {mi.ka}' if has_one else
